@@ -484,6 +484,21 @@ pub fn check_program(out: &mut Out, ast: &Ast, model: &Model, r: &mut Rng) {
     let is = exec::run_impl(&src, None, model, Entry::StrMut, false);
     out.eval();
     exec::compare(out, "order", &src, model, &rr, &is, Entry::StrMut);
+    // second use of the same precompiled tree: after an evaluation against a different context (builtins
+    // toggled, a builtin shadowed, other variable types) it must still behave like a fresh tree
+    if judged && r.chance(1, 4) {
+        let mut other = model.clone();
+        other.builtins_off = !model.builtins_off;
+        other.funs.insert("max".into(), FnModel::Marker);
+        other.funs.insert("if".into(), FnModel::Marker);
+        other.funs.remove("t");
+        other.vars.insert("x".into(), RV::Str("other".into()));
+        let _ = exec::run_impl(&src, Some(&tree), &other, Entry::TreeMut, false);
+        let again = exec::run_impl(&src, Some(&tree), model, Entry::TreeMut, false);
+        out.evals(2);
+        out.count("reused precompiled trees");
+        exec::compare(out, "order/reused-tree", &src, model, &rr, &again, Entry::TreeMut);
+    }
     // the typed views evaluate exactly once as well: same effects, same final context
     if judged {
         let which = r.below(14);
@@ -586,7 +601,7 @@ pub fn phases(cfg: &Cfg) -> Vec<Box<dyn Phase>> {
             corpus: corpus_exhaustive(),
         }),
         Box::new(Random {
-            n: cfg.n(120_000, 5_000_000),
+            n: cfg.n(250_000, 5_000_000),
         }),
     ]
 }
